@@ -5,6 +5,7 @@ E3 x E5: small machines x vertex sets x constraint sets, each placer (both
 annealing kernels, Hilbert, RCM, breadth-first, sequential incl. custom
 orders, random) called with an owned random source explored to a deviation
 bound; an independent feasibility oracle judges the result."""
+import collections
 import itertools
 import signal
 
@@ -59,7 +60,8 @@ def shards(tier):
           for p in ("rand", "sa_python", "sa_c") for i in range(2)]
     mx = [dict(fam="sa_mixed", placer=p, k=k)
           for p in ("sa_python", "sa_c") for k in range(4)]
-    return tr + mx + out
+    two = [dict(fam="tworesource", placer=p) for p in PLACERS]
+    return tr + mx + two + out
 
 
 # ------------------------------------------------------------------ building
@@ -76,6 +78,10 @@ def build(case):
         e = dict(res)
         e[Cores] = c
         exc[tuple(chip)] = e
+    for chip, c, s2 in case.get("exceptions2", []):
+        # the exception dictionary lists the resources in the OTHER order
+        # (an exception need not be built like the machine-wide dict)
+        exc[tuple(chip)] = collections.OrderedDict([("S", s2), (Cores, c)])
     machine = Machine(case["w"], case["h"], chip_resources=res,
                       chip_resource_exceptions=exc,
                       dead_chips=set(map(tuple, case.get("dead", []))))
@@ -84,6 +90,8 @@ def build(case):
         d = {}
         if need is not None:
             d[Cores] = need
+        if name in case.get("needs2", {}):
+            d["S"] = case["needs2"][name]
         vr[name] = d
     nets = [Net(s, list(t), w) for s, t, w in case.get("nets", [])]
     cons = []
@@ -177,6 +185,8 @@ def free_capacity(case):
     cap = {}
     dead = set(map(tuple, case.get("dead", [])))
     exc = {tuple(c): v for c, v in case.get("exceptions", [])}
+    for c, v, _s in case.get("exceptions2", []):
+        exc[tuple(c)] = v
     for x in range(case["w"]):
         for y in range(case["h"]):
             if (x, y) in dead:
@@ -222,6 +232,20 @@ def judge_placement(case, pl):
             return "vertex %r placed on %r which is not a working chip" % (
                 v, chip)
         used[chip] = used.get(chip, 0) + (need[v] or 0)
+    if case.get("cap2") is not None:
+        # second resource: plain capacities (no reservations on it)
+        cap2 = {c: case["cap2"] for c in cap}
+        for chip, c_, s2 in case.get("exceptions2", []):
+            if tuple(chip) in cap2:
+                cap2[tuple(chip)] = s2
+        used2 = {}
+        for v, chip in pl.items():
+            used2[tuple(chip)] = used2.get(tuple(chip), 0) + \
+                case.get("needs2", {}).get(v, 0)
+        for chip, u in used2.items():
+            if u > cap2[chip]:
+                return ("chip %r holds vertices needing %d of the second "
+                        "resource, it has %d" % (chip, u, cap2[chip]))
     for chip, u in used.items():
         if u > cap[chip]:
             return ("chip %r holds vertices needing %d, only %d available "
@@ -546,6 +570,44 @@ def fam_orders(params, tier, acc):
                                 acc.nontrivial += 1
                                 run_case(case, acc, tier, 0)
     acc.sample(dict(fam="orders"))
+
+
+def fam_tworesource(params, tier, acc):
+    """Two resource types; a chip whose exception dictionary lists them in
+    the other order; and machines on which no chip works at all."""
+    placer = params["placer"]
+    pairs = [(1, 1), (1, 3), (1, 4), (0, 2)]
+    for (w, h) in ((2, 1), (2, 2)):
+        chips = [(x, y) for x in range(w) for y in range(h)]
+        for excv in (None, (1, 4), (2, 1), (2, 4)):
+            for n in (2, 3):
+                for needs in itertools.product(pairs, repeat=n):
+                    names = ["v%d" % j for j in range(n)]
+                    case = dict(w=w, h=h, cap=2, cap2=4, dead=[],
+                                reservations=[],
+                                vertices=[[nm, nd[0]] for nm, nd in
+                                          zip(names, needs)],
+                                needs2={nm: nd[1] for nm, nd in
+                                        zip(names, needs)},
+                                nets=chain_nets(names), placer=placer,
+                                fam="tworesource", effort=1.0)
+                    if excv:
+                        case["exceptions2"] = [[list(chips[-1]), excv[0],
+                                                excv[1]]]
+                    acc.nontrivial += 1
+                    run_case(case, acc, tier, 0)
+    # no working chip at all
+    for (w, h) in ((1, 1), (2, 1)):
+        chips = [[x, y] for x in range(w) for y in range(h)]
+        for n in (1, 2):
+            names = ["v%d" % j for j in range(n)]
+            case = dict(w=w, h=h, cap=2, dead=chips, reservations=[],
+                        vertices=[[nm, 1] for nm in names],
+                        nets=chain_nets(names), placer=placer,
+                        fam="tworesource")
+            acc.nontrivial += 1
+            run_case(case, acc, tier, 0)
+    acc.sample(dict(fam="tworesource", placer=placer))
 
 
 def fam_tiny_random(params, tier, acc):
